@@ -375,6 +375,20 @@ theorem c05_protein_accepts (s : List UInt8) :
     (∃ v, generic protein s = .ok v) ↔ ∀ b ∈ s, b ∈ protein.letters :=
   generic_ok_iff tables_protein s
 
+/-! ### the character entry point (`Symbol::from_char`, used by the text parsers and the Python module) -/
+
+/-- `from_char` accepts exactly the (ASCII, upper-case) letters of the alphabet and returns the
+    letter's rank; every non-ASCII character is rejected, whatever its low byte -/
+theorem fromChar_eq_some_iff {A : Alphabet} (T : TablesOK A) (cp a : Nat) :
+    A.fromChar cp = some a ↔ cp < 128 ∧ A.letters[a]? = some cp.toUInt8 := by
+  unfold Alphabet.fromChar
+  by_cases h : cp < 128
+  · simp only [h, if_true, true_and]
+    exact fromAscii_eq_some_iff T cp.toUInt8 a
+  · simp [h]
+
+example : dna.fromChar 65 = some 0 ∧ dna.fromChar 0x141 = none ∧ dna.fromChar 97 = none := by decide
+
 /-! ### Non-vacuity: the hypotheses are met by real inputs and both outcomes occur -/
 
 example : generic dna [65, 84, 71, 67, 78] = .ok [0, 2, 3, 1, 4] := by decide
